@@ -253,14 +253,13 @@ pub fn encoding_sound(d: &VerifDump, rf: &Ref, p: &Prob) -> Vec<String> {
                 }
             }
             VerifKind::Forbid(name) => {
-                let ok = (|| {
-                    if c.literals.len() != 2 {
-                        return false;
-                    }
-                    let (VerifVar::Solvable(s), false) = c.literals[0] else { return false };
-                    let (VerifVar::Helper(n, _), _) = c.literals[1] else { return false };
-                    n == name.0 && u.solvs[s as usize].name == name.0
-                })();
+                // any layout: solvable literals are negative and belong to the package, helper
+                // literals belong to the package
+                let ok = c.literals.iter().all(|(v, pol)| match v {
+                    VerifVar::Solvable(s) => !*pol && u.solvs[*s as usize].name == name.0,
+                    VerifVar::Helper(n, _) => *n == name.0,
+                    VerifVar::Root => false,
+                }) && c.literals.iter().any(|(v, _)| matches!(v, VerifVar::Solvable(_)));
                 if !ok {
                     out.push(format!("#{i} forbid {}: literals {:?} malformed", name.0, c.literals));
                 }
@@ -275,40 +274,80 @@ pub fn encoding_sound(d: &VerifDump, rf: &Ref, p: &Prob) -> Vec<String> {
     out
 }
 
-/// At-most-one structure per package: every registered candidate gets a distinct, complete bit
-/// pattern over the helper variables (=> pairwise exclusive, individually consistent).
+/// At-most-one per package, judged semantically (independent of the encoding layout): over the
+/// forbid clauses of a package, assuming any registered candidate true must, by unit propagation
+/// alone, force every other registered candidate false without running into a conflict.
 pub fn amo_structure(d: &VerifDump) -> Vec<(u32, String)> {
     let mut out = vec![];
-    // name -> solvable -> helper -> polarity
-    let mut pat: BTreeMap<u32, BTreeMap<u32, BTreeMap<u32, bool>>> = BTreeMap::new();
-    let mut helpers: BTreeMap<u32, BTreeSet<u32>> = BTreeMap::new();
+    let mut by_pkg: BTreeMap<u32, Vec<&Vec<VerifLit>>> = BTreeMap::new();
     for c in &d.clauses {
-        let VerifKind::Forbid(name) = &c.kind else { continue };
-        if c.literals.len() != 2 {
-            continue;
-        }
-        let ((VerifVar::Solvable(s), false), (VerifVar::Helper(_, h), pol)) = (c.literals[0], c.literals[1]) else {
-            continue;
-        };
-        helpers.entry(name.0).or_default().insert(h);
-        let e = pat.entry(name.0).or_default().entry(s).or_default();
-        if let Some(prev) = e.insert(h, pol) {
-            if prev != pol {
-                out.push((name.0, format!("solvable {s} implies both polarities of helper {h}")));
-            }
+        if let VerifKind::Forbid(name) = &c.kind {
+            by_pkg.entry(name.0).or_default().push(&c.literals);
         }
     }
-    for (name, m) in &pat {
-        let hs = &helpers[name];
-        let mut seen: BTreeMap<Vec<bool>, u32> = BTreeMap::new();
-        for (s, p) in m {
-            if p.len() != hs.len() {
-                out.push((*name, format!("solvable {s} constrains {} of {} helper variables", p.len(), hs.len())));
+    for (name, clauses) in &by_pkg {
+        let mut cands: BTreeSet<u32> = BTreeSet::new();
+        for cl in clauses {
+            for (v, _) in cl.iter() {
+                if let VerifVar::Solvable(s) = v {
+                    cands.insert(*s);
+                }
+            }
+        }
+        for &a in &cands {
+            let mut val: HashMap<VerifVar, bool> = HashMap::new();
+            val.insert(VerifVar::Solvable(a), true);
+            let mut conflict = false;
+            loop {
+                let mut changed = false;
+                for cl in clauses {
+                    let mut sat = false;
+                    let mut un: Option<VerifLit> = None;
+                    let mut n_un = 0;
+                    for &(v, pol) in cl.iter() {
+                        match val.get(&v) {
+                            Some(&b) if b == pol => {
+                                sat = true;
+                                break;
+                            }
+                            Some(_) => {}
+                            None => {
+                                if un != Some((v, pol)) {
+                                    n_un += 1;
+                                }
+                                un = Some((v, pol));
+                            }
+                        }
+                    }
+                    if sat {
+                        continue;
+                    }
+                    if n_un == 0 {
+                        conflict = true;
+                        break;
+                    }
+                    if n_un == 1 {
+                        let (v, pol) = un.unwrap();
+                        val.insert(v, pol);
+                        changed = true;
+                    }
+                }
+                if conflict || !changed {
+                    break;
+                }
+            }
+            if conflict {
+                out.push((*name, format!("selecting solvable {a} alone contradicts the at-most-one clauses")));
                 continue;
             }
-            let key: Vec<bool> = hs.iter().map(|h| p[h]).collect();
-            if let Some(o) = seen.insert(key, *s) {
-                out.push((*name, format!("solvables {o} and {s} share a bit pattern (can be installed together)")));
+            for &b in &cands {
+                if b != a && val.get(&VerifVar::Solvable(b)) != Some(&false) {
+                    out.push((*name, format!("solvables {a} and {b} are not made exclusive by the at-most-one clauses (unit propagation from {a} leaves {b} open)")));
+                    break;
+                }
+            }
+            if out.len() > 8 {
+                return out;
             }
         }
     }
